@@ -247,7 +247,13 @@ func numberOfBloomFilterBits(n uint, r float64) uint {
 }
 
 func numberOfBloomFilterHashFunctions(s uint, n uint) uint {
-	return uint(math.Round(float64(s) / float64(n) * math.Log(2)))
+	k := uint(math.Round(float64(s) / float64(n) * math.Log(2)))
+	if k == 0 {
+		// A filter needs at least one hash function: with zero, no bit is ever set or tested
+		// and every lookup reports the item as absent.
+		return 1
+	}
+	return k
 }
 
 func (c *bloomFilter) Add(ctx context.Context, key string) error {
